@@ -550,10 +550,12 @@ def register_pretty(type=None, predicate=None):
                 # class, we can call register_pretty(cls)(fn)
                 _DEFERRED_DISPATCH_BY_NAME[type] = fn
             else:
-                # A direct registration supersedes a pending
-                # by-name registration for the same class.
-                _DEFERRED_DISPATCH_BY_NAME.pop(get_deferred_key(type), None)
                 pretty_dispatch.register(type, partial(_run_pretty, fn))
+                # A direct registration supersedes a pending
+                # by-name registration for the same class. The entry
+                # is dropped only after the printer is live, so that
+                # another thread never finds the class in neither place.
+                _DEFERRED_DISPATCH_BY_NAME.pop(get_deferred_key(type), None)
         else:
             assert callable(predicate)
             _PREDICATE_REGISTRY.append((predicate, fn))
@@ -578,11 +580,10 @@ def is_registered(
         # before the registry lookup: a by-name registration made
         # after the class already had a printer replaces that printer.
         deferred_key = get_deferred_key(type)
-        if deferred_key in _DEFERRED_DISPATCH_BY_NAME:
+        deferred_dispatch = _DEFERRED_DISPATCH_BY_NAME.get(deferred_key)
+        if deferred_dispatch is not None:
             if register_deferred:
-                deferred_dispatch = _DEFERRED_DISPATCH_BY_NAME.pop(
-                    deferred_key
-                )
+                # Registering also drops the deferred entry.
                 register_pretty(type)(deferred_dispatch)
             return True
 
@@ -596,11 +597,10 @@ def is_registered(
         # Check deferred printers for supertypes.
         for supertype in type.__mro__[1:]:
             deferred_key = get_deferred_key(supertype)
-            if deferred_key in _DEFERRED_DISPATCH_BY_NAME:
+            deferred_dispatch = _DEFERRED_DISPATCH_BY_NAME.get(deferred_key)
+            if deferred_dispatch is not None:
                 if register_deferred:
-                    deferred_dispatch = _DEFERRED_DISPATCH_BY_NAME.pop(
-                        deferred_key
-                    )
+                    # Registering also drops the deferred entry.
                     register_pretty(supertype)(deferred_dispatch)
                 return True
     return pretty_dispatch.dispatch(type) is not _BASE_DISPATCH
